@@ -304,4 +304,148 @@ theorem completeBlock_eq (w : W) (Wl Wl' : WSt) (b : Blk) (hwr : w.wr = Wl.wr) (
           rw [e2, modInode_eff]
         · simp only [hl, Bool.false_eq_true, if_false, applyEffs_nil]
 
+theorem eq_of_map_nodup {α β : Type} {f : α → β} {l : List α} (h : (l.map f).Nodup) {a b : α} (ha : a ∈ l) (hb : b ∈ l)
+    (hf : f a = f b) : a = b := by
+  induction l with
+  | nil => cases ha
+  | cons x t ih =>
+    rw [List.map_cons, List.nodup_cons] at h
+    rcases List.mem_cons.mp ha with ha | ha <;> rcases List.mem_cons.mp hb with hb | hb
+    · rw [ha, hb]
+    · rw [ha] at hf; exact absurd (hf ▸ List.mem_map_of_mem hb) h.1
+    · rw [hb] at hf; exact absurd (hf.symm ▸ List.mem_map_of_mem ha) h.1
+    · exact ih h.2 ha hb
+
+/-- every block of the numbered stream fits a block -/
+theorem Back.stream_size {P : Params} (hc : CodecOk P.codec) {s : Proc} {g : Ghost} {F : FSt} {W : WSt} (h : Back P s g F W)
+    {b : Blk} (hb : b ∈ F.stream) : b.data.length ≤ P.B := by
+  by_cases hfb : isFB b = true
+  · obtain ⟨d, hd, hw⟩ := h.finv.fbs b hb hfb
+    obtain ⟨_, hpos, hle⟩ := h.finv.closedOK _ hd
+    have hne : d ≠ [] := fun he => by simp [he] at hpos
+    rcases hw.payload hc hne with ⟨_, h2⟩ | ⟨_, _, h3, _⟩
+    · rw [h2]; exact hle
+    · exact Nat.le_trans (Nat.le_of_lt h3) hle
+  · obtain ⟨x, hx, _, hbx⟩ := h.finv.datas b hb (by simpa using hfb)
+    rw [hbx]
+    exact (h.itemOK_of_mem hc (List.mem_append_left _ hx)).size
+
+theorem Back.fb_facts {P : Params} {s : Proc} {g : Ghost} {F : FSt} {W : WSt} (h : Back P s g F W)
+    {b : Blk} (hb : b ∈ F.stream) (hfb : isFB b = true) : FBFlagFacts b.flags ∧ b.data ≠ [] ∧ b.index < F.ntbl := by
+  obtain ⟨d, hd, hw⟩ := h.finv.fbs b hb hfb
+  obtain ⟨hidx, hpos, _⟩ := h.finv.closedOK _ hd
+  have hne : d ≠ [] := fun he => by simp [he] at hpos
+  refine ⟨hw.facts hne, ?_, hidx⟩
+  obtain ⟨fb, hf, hdd, rfl⟩ := hw
+  intro he
+  exact hne (hdd ▸ (processBlock_data_nil P fb).mp he)
+
+/-- the head of `io_queue` carries the next sequence number: it goes through `process_completed_block` -/
+theorem Back.releaseOne {P : Params} (hc : CodecOk P.codec) (hB : P.B < 2 ^ 24) {s : Proc} {g : Ghost} {F : FSt} {W : WSt}
+    (h : Back P s g F W) (b : Blk) (rest : List Blk) (hq : s.ioQueue = b :: rest) (hseq : b.seq = s.ioDeqSeqNum) :
+    ∃ s' W' effs, processCompletedBlock { s with ioQueue := rest, ioDeqSeqNum := s.ioDeqSeqNum + 1 } b = .ok s' ∧
+      s'.fe = s.fe ∧ s'.backlog = s.backlog - 1 ∧ s'.ioQueue = rest ∧ s'.fragBlock = s.fragBlock ∧ s'.maxBacklog = s.maxBacklog ∧
+      s'.ioDeqSeqNum = s.ioDeqSeqNum + 1 ∧
+      Back P s' { g with h := g.h ++ effs, m := g.m ++ effs } F W' := by
+  have hbq : b ∈ s.ioQueue ++ g.items.filter isFB := by rw [hq]; simp
+  have hbd : b ∈ F.stream.drop s.ioDeqSeqNum := h.queue.subset hbq
+  obtain ⟨_, hlt, hget⟩ := mem_drop_seq h.finv hbd
+  rw [hseq] at hlt hget
+  have hbs : b ∈ F.stream := List.mem_of_mem_drop hbd
+  have hbeq : F.stream[s.ioDeqSeqNum] = b := by
+    rw [List.getElem?_eq_getElem hlt] at hget; exact Option.some.inj hget
+  have htake : F.stream.take (s.ioDeqSeqNum + 1) = F.stream.take s.ioDeqSeqNum ++ [b] := by
+    rw [take_succ_of_lt _ _ hlt, hbeq]
+  have hdrop : F.stream.drop s.ioDeqSeqNum = b :: F.stream.drop (s.ioDeqSeqNum + 1) := by
+    rw [drop_eq_cons_of_lt _ _ hlt, hbeq]
+  have hsz : b.data.length < 2 ^ 24 := Nat.lt_of_le_of_lt (h.stream_size hc hbs) hB
+  have hp : (if isFB b then !((F.stream.take s.ioDeqSeqNum).foldl bOpen false)
+      else (!isLast b || (F.stream.take s.ioDeqSeqNum).foldl bOpen false || isFirst b)) = true := by
+    have := h.finv.proto
+    rw [← List.take_append_drop s.ioDeqSeqNum F.stream, hdrop, sproto_append] at this
+    simp only [sproto, Bool.and_eq_true] at this
+    exact this.2.1
+  obtain ⟨W', hstep, hwinv'⟩ := h.winv.step b hsz hp (fun hfb => ⟨(h.fb_facts hbs hfb).1, (h.fb_facts hbs hfb).2.1⟩)
+  have hidx : isFB b = true → b.index < s.w.fragTbl.length := by
+    intro hfb; rw [h.tblLen]; exact (h.fb_facts hbs hfb).2.2
+  obtain ⟨loc, heffs, hsets, hcb⟩ := completeBlock_eq s.w W W' b h.wr h.calls hstep hidx
+  have hpcb : processCompletedBlock { s with ioQueue := rest, ioDeqSeqNum := s.ioDeqSeqNum + 1 } b = .ok
+      (releaseOldBlock { s with ioQueue := rest, ioDeqSeqNum := s.ioDeqSeqNum + 1, fblkInFlight := if hasFlag b.flags blkFragmentBlock then s.fblkInFlight.eraseP (fun e => e.1 == b.index) else s.fblkInFlight, w := { wr := W'.wr, fragTbl := (if !hasFlag b.flags blkIsSparse && b.data.length != 0 && hasFlag b.flags blkFragmentBlock then s.w.fragTbl.set b.index (loc, sizeWord b) else s.w.fragTbl), inodes := applyEffs s.w.inodes (blockEffs b loc), calls := W'.calls } }) := by
+    unfold processCompletedBlock
+    simp only [hcb]
+  refine ⟨_, W', blockEffs b loc, hpcb, rfl, rfl, rfl, rfl, rfl, rfl, ?_⟩
+  · have f11 : (if hasFlag b.flags blkFragmentBlock then s.fblkInFlight.eraseP (fun e => e.1 == b.index) else s.fblkInFlight)
+        = (if isFB b then s.fblkInFlight.eraseP (fun e => e.1 == b.index) else s.fblkInFlight) := rfl
+    have hlen : (applyEffs s.w.inodes (blockEffs b loc)).length = s.w.inodes.length := applyEffs_length _ _
+    have hsub : ∀ e ∈ (if isFB b then s.fblkInFlight.eraseP (fun e => e.1 == b.index) else s.fblkInFlight), e ∈ s.fblkInFlight := by
+      intro e he
+      split at he
+      · exact List.mem_of_mem_eraseP he
+      · exact he
+    constructor
+    · exact h.maxBacklog
+    · exact h.pool
+    · exact h.pend
+    · exact h.worked
+    · show s.ioDeqSeqNum + 1 ≤ _
+      omega
+    · show (rest ++ _).Perm (F.stream.drop (s.ioDeqSeqNum + 1))
+      have := h.queue
+      rw [hq, hdrop, List.cons_append] at this
+      exact this.cons_inv
+    · show rest.Pairwise _
+      have := h.sorted
+      rw [hq, List.pairwise_cons] at this
+      exact this.2
+    · simp only [releaseOldBlock, hlen]; exact h.itemsOK
+    · exact h.fprotoOK
+    · simp only [releaseOldBlock, hlen]; exact h.finv
+    · exact h.fragBlock
+    · exact h.fragHt
+    · exact h.ioSeq
+    · show wRun _ (F.stream.take (s.ioDeqSeqNum + 1)) = _
+      rw [htake, wRun_append, h.wrun]
+      simp only [wRun, hstep]
+    · show WInv P (F.stream.take (s.ioDeqSeqNum + 1)) W'
+      rw [htake]; exact hwinv'
+    · rfl
+    · rfl
+    · simp only [releaseOldBlock, hsets]
+      split
+      · rw [applySets_append, ← h.fragTbl]; rfl
+      · exact h.fragTbl
+    · simp only [releaseOldBlock, hlen]
+      rw [applyEffs_append, ← h.inodes]
+    · exact h.mergeH.append_right _
+    · rw [heffs]; exact h.mergeM.append_right _
+    · simp only [releaseOldBlock, hlen]; exact h.feIds
+    · simp only [releaseOldBlock, f11]
+      intro e he
+      exact h.inFlSub e (hsub e he)
+    · simp only [releaseOldBlock, f11]
+      split
+      · exact ((List.eraseP_sublist).map _).nodup h.inFlNodup
+      · exact h.inFlNodup
+    · intro hbc b' hb' hbfb'
+      simp only [releaseOldBlock, f11] at hb' ⊢
+      have hb'd : b' ∈ F.stream.drop s.ioDeqSeqNum := by rw [hdrop]; exact List.mem_cons_of_mem _ hb'
+      have hold := h.inFlAll hbc b' hb'd hbfb'
+      split
+      · rename_i hbfb
+        obtain ⟨e, he, hek⟩ := List.mem_map.mp hold
+        have hne : b'.index ≠ b.index := by
+          intro heq
+          have hb's : b' ∈ F.stream := List.mem_of_mem_drop hb'd
+          have : b' = b := eq_of_map_nodup (stream_fb_indices_nodup h.finv)
+            (List.mem_filter.mpr ⟨hb's, hbfb'⟩) (List.mem_filter.mpr ⟨hbs, hbfb⟩) heq
+          have hs' := (mem_drop_seq h.finv hb').1
+          rw [this, hseq] at hs'
+          omega
+        exact List.mem_map.mpr ⟨e, (List.mem_eraseP_of_neg (by simp [hek, hne])).mpr he, hek⟩
+      · exact hold
+    · intro hbc
+      simp only [releaseOldBlock, f11, h.inFlNone hbc]
+      split <;> rfl
+    · exact h.cache
+
 end Sqfs.BlockProc
